@@ -46,6 +46,8 @@ func (o Op) String() string {
 		return fmt.Sprintf("ckpt(%s,%d)", o.Mode, o.Max)
 	case "leave-wal":
 		return "leave-wal(" + o.Mode + ")"
+	case "stray-wal":
+		return "stray-wal(" + o.Mode + ")"
 	}
 	return o.Kind
 }
@@ -206,6 +208,8 @@ func (r *runner) run() {
 			ok = r.recoverStore()
 		case "leave-wal":
 			ok = r.leaveWAL(op.Mode)
+		case "stray-wal":
+			ok = r.strayWAL(op.Mode)
 		case "restart":
 			ok = r.restart()
 		}
@@ -484,6 +488,20 @@ func (r *runner) leaveWAL(final string) bool {
 		return false
 	}
 	return r.rtx(pager.RTx{FromWAL: true, Final: final, Outcome: "commit"}, false)
+}
+
+// strayWAL: a connection writes to the log without holding the WAL write lock. The write must be refused and
+// nothing may change (the next transactions show whether the capture state survived).
+func (r *runner) strayWAL(kind string) bool {
+	before := r.pos()
+	var err error
+	if !r.guarded("stray-wal", func() { err = r.b.StrayWALWrite(kind) }) {
+		return false
+	}
+	if err == nil {
+		r.viol("C11/wal-write-without-lock-accepted/"+kind, "a %s write to the WAL by a connection that does not hold the write lock was accepted", kind)
+	}
+	return r.afterOp("stray-wal-"+kind, before, r.img, false, false, false, nil, "")
 }
 
 func (r *runner) recoverStore() bool {
